@@ -128,9 +128,10 @@ pub fn int_literal(r: &mut Rng) -> String {
     }
 }
 
-/// the numbers on which `from_float` is known to corrupt (C08's and C06's hazard classes)
-pub fn hazard_value(x: f64) -> bool {
-    (x > 0.0 && x < 1e-15) || x.abs() >= 9.2e18
+/// the numbers `Value::from_float` used to corrupt (0 < x < 2.2e-16 ↦ 0, |x| ≥ 2^63 ↦ i64::MAX/MIN; class
+/// C06/float-to-int-corruption, repaired by /repo 6cfc8ab): no longer excluded from any generator
+pub fn hazard_value(_x: f64) -> bool {
+    false
 }
 
 /// fraction / exponent literal inside the class where serde_json (without `float_roundtrip`) and a
@@ -189,7 +190,7 @@ pub fn safe_frac_literal(r: &mut Rng) -> String {
 /// any finite-double literal (P-level only): long mantissas, big exponents, subnormal neighbourhood
 pub fn wide_literal(r: &mut Rng) -> String {
     loop {
-        let s = match r.below(8) {
+        let s = match r.below(9) {
             0 => format!("{}.{}e{}", r.range(0, 9), r.next() % 100000000000000000, r.range(-300, 300)),
             1 => format!("{}e{}", r.next() % 1000000000000000000, r.range(-320, 290)),
             2 => format!("0.{}{}", "0".repeat(r.below(12)), r.next()),
@@ -233,6 +234,7 @@ pub fn wide_literal(r: &mut Rng) -> String {
                 }
                 format!("{}", f)
             }
+            7 => (*r.pick(&["9223372036854775808", "-9223372036854775809", "18446744073709551615", "18446744073709551616", "123456789012345678901234567890", "1e19", "1e-300", "2.5e-17", "1e300", "-1e19"])).to_string(),
             _ => format!("{}{}.{}", r.range(1, 9), r.next(), r.next()),
         };
         let s = if r.chance(20) && !s.starts_with('-') { format!("-{}", s) } else { s };
@@ -243,8 +245,8 @@ pub fn wide_literal(r: &mut Rng) -> String {
         if !v.is_finite() || hazard_value(v) {
             continue;
         }
-        // integer literals belong to the other family
-        if !s.contains('.') && !s.contains('e') && !s.contains('E') {
+        // integer literals inside i64 belong to the other family
+        if !s.contains('.') && !s.contains('e') && !s.contains('E') && s.parse::<i64>().is_ok() {
             continue;
         }
         // Rust's `{:e}` may print `1e5` without a dot: still fine JSON
@@ -603,7 +605,7 @@ fn fam_num_shortest(ctx: &mut Ctx, r: &mut Rng) {
     let d = Doc::Obj((0..n).map(|i| (format!("v{}", i), Doc::Num(shortest_literal(r)))).collect());
     let lines = vec![Line { bytes: doc_text(r, &d).into_bytes(), exp: Some(expect(&d)) }];
     let input = input_of(&lines, r);
-    report(ctx, "json-num-shortest", "* | json", &input, &lines, false);
+    report(ctx, "json-num-shortest", "* | json", &input, &lines, true);
 }
 
 fn fam_num_wide(ctx: &mut Ctx, r: &mut Rng) {
@@ -611,7 +613,7 @@ fn fam_num_wide(ctx: &mut Ctx, r: &mut Rng) {
     let d = Doc::Obj((0..1 + r.below(4)).map(|i| (format!("v{}", i), if r.chance(80) { Doc::Num(wide_literal(r)) } else { gen_doc(r, 2, &cfg) })).collect());
     let lines = vec![Line { bytes: doc_text(r, &d).into_bytes(), exp: Some(expect(&d)) }];
     let input = input_of(&lines, r);
-    report(ctx, "json-num-wide", "* | json", &input, &lines, false);
+    report(ctx, "json-num-wide", "* | json", &input, &lines, true);
 }
 
 /// `json from f`: the text comes from a string field of the row
@@ -1087,10 +1089,12 @@ fn fam_hazards(ctx: &mut Ctx) {
                 } else {
                     class
                 };
+                let open = class.starts_with("C06/logfmt-");
                 info["class"] = serde_json::json!(class);
                 info["what"] = serde_json::json!(what);
                 info["got"] = serde_json::json!(String::from_utf8_lossy(&run.stdout));
-                ctx.case("hazard-logfmt", &key, "viol", info)
+                // the two logfmt classes are listed as open findings (third-party `logfmt` crate)
+                ctx.case("hazard-logfmt", &key, if open { "known" } else { "viol" }, info)
             }
         }
     }
